@@ -329,13 +329,17 @@ def nice_wfsa(rng, family, q=3, sigma=2, m=5, p_eps=0.2):
     family 'frac': non-integer weights allowed; 'int': weights 1..3 and an acyclic epsilon structure
     (integer epsilon cycles diverge; 'frac' epsilon cycles must be filtered for convergence by the caller)."""
     pool = NICE_FRAC if family == "frac" else NICE_INT
+    if family == "signed":
+        # signed dyadic weights: sums and products of a few of them are exact in binary floating point, so exact cancellation in Q
+        # is exact cancellation in the code under test as well
+        pool = [F(1, 2), F(-1, 2), F(1, 4), F(-1, 4), F(1), F(-1), F(3, 2), F(3, 4), F(-3, 4), F(2)]
     states = list(range(q))
     syms = terms(sigma)
     arcs = []
     for _ in range(rng.randint(1, m)):
         i, j = rng.choice(states), rng.choice(states)
         if rng.random() < p_eps:
-            if family == "int" or rng.random() < 0.7:
+            if family in ("int", "signed") or rng.random() < 0.7:
                 if i == j:
                     continue
                 i, j = min(i, j), max(i, j)   # acyclic epsilon structure: epsilon sums are finite
@@ -366,6 +370,13 @@ def nice_corpus():
     c["eps_frac"] = A(frozenset([0, 1, 2]), {0: F(1)}, {2: F(1)}, [(0, EPS, 1, F(1, 2)), (1, "a", 2, F(3, 2)), (0, "a", 2, F(1, 4)), (2, EPS, 2, F(1, 4))])
     c["ab_star_int"] = A(frozenset([0, 1]), {0: F(1)}, {0: F(1)}, [(0, "a", 1, F(1)), (1, "b", 0, F(1))])
     c["rank3"] = A(frozenset([0, 1, 2]), {0: F(1)}, {2: F(1)}, [(0, "a", 1, F(1)), (1, "a", 2, F(2)), (2, "b", 0, F(1)), (0, "b", 0, F(3))])
+    # real weights are signed: initial weights that cancel in the sum although the language is not empty, and a positive automaton
+    # whose conjugated start vector sums to zero inside min (dyadic weights: exact in binary floating point) - seeded change C14-4
+    c["difference_a_minus_b"] = A(frozenset([0, 1, 2]), {0: F(1, 2), 1: F(-1, 2)}, {2: F(1)}, [(0, "a", 2, F(1)), (1, "b", 2, F(1))])
+    c["difference_rank2"] = A(frozenset([0, 1, 2, 3]), {0: F(1), 1: F(-1)}, {2: F(1), 3: F(1, 2)},
+                              [(0, "a", 2, F(1, 2)), (1, "a", 3, F(1, 2)), (2, "b", 2, F(1, 2)), (3, "a", 3, F(1, 4))])
+    c["conjugate_start_sums_to_zero"] = A(frozenset([0, 1]), {0: F(1, 2), 1: F(1, 4)}, {1: F(1, 8)}, [(0, "a", 0, F(1)), (1, "a", 0, F(1, 2))])
+    c["negative_arc"] = A(frozenset([0, 1]), {0: F(1)}, {1: F(1)}, [(0, "a", 1, F(1, 2)), (0, "a", 1, F(-1, 4)), (1, "b", 1, F(-1, 2))])
     return c
 
 
